@@ -598,6 +598,11 @@ func (e *Enc) preserveLocals(f *frame, in ssa.Instruction, pre, st *State) {
 func (e *Enc) indexAddr(f *frame, st *State, in *ssa.IndexAddr) {
 	x := e.value(f, in.X)
 	idx := e.value(f, in.Index)
+	if e.instDepth == 0 && e.inQuant == 0 {
+		if st, ok := in.X.Type().Underlying().(*types.Slice); ok {
+			e.instantiateFactsFor([]string{idx.T}, elemPath(st.Elem()))
+		}
+	}
 	switch xt := in.X.Type().Underlying().(type) {
 	case *types.Slice:
 		e.oblige("idx", e.site(in), in.Pos(), fmt.Sprintf("(and (<= 0 %s) (< %s %s))", idx.T, idx.T, x.Sub[2].T), e.safetyProps(), "")
